@@ -88,6 +88,17 @@ func guards(c *Ctx, out string, stall time.Duration) {
 			el := time.Since(lastChange)
 			used := cpuNow() - cpuAt
 			allowance := fastHang.Seconds() + float64(c.allowNs.Load())/1e9
+			// the description closure belongs to the worker's goroutine; it is
+			// evaluated here only once the verdict is certain (the worker is
+			// stuck or starved), never on a mere slow call
+			if el < time.Second {
+				continue
+			}
+			hang := (used >= allowance && used >= 0.9*el.Seconds()) || (el >= stall+time.Duration(allowance*float64(time.Second)) && used >= hangCPUShare*el.Seconds())
+			starved := !hang && el >= stall+time.Duration(allowance*float64(time.Second))
+			if !hang && !starved {
+				continue
+			}
 			desc := c.currentString()
 			if (used >= allowance && used >= 0.9*el.Seconds()) || (el >= stall+time.Duration(allowance*float64(time.Second)) && used >= hangCPUShare*el.Seconds()) {
 				c.Violation("HANG/"+sigHead(desc), fmt.Sprintf("call did not return: %.1f s of CPU in %.1f s without progress (allowance %.1f s) during: %s", used, el.Seconds(), allowance, clip(desc, 300)),
